@@ -16,6 +16,8 @@ func (kgraph *KVGraph) AddGraph(graph string) error {
 		return err
 	}
 
+	kgraph.graphLock.Lock()
+	defer kgraph.graphLock.Unlock()
 	if !kgraph.kv.HasKey(GraphKey(graph)) {
 		// remove whatever an interrupted DeleteGraph of the same name left behind
 		kgraph.purgeGraph(graph)
@@ -30,6 +32,8 @@ func (kgraph *KVGraph) AddGraph(graph string) error {
 
 // DeleteGraph deletes `graph`
 func (kgraph *KVGraph) DeleteGraph(graph string) error {
+	kgraph.graphLock.Lock()
+	defer kgraph.graphLock.Unlock()
 	kgraph.ts.Touch(graph)
 
 	// The graph key goes first: from that write on the graph does not exist any
